@@ -6,6 +6,8 @@ import (
 	. "github.com/cloudflare/pat-go/internal/vspec"
 	"github.com/cloudflare/pat-go/quicwire"
 	"github.com/cloudflare/pat-go/tokens"
+	"github.com/cloudflare/pat-go/tokens/type1"
+	"github.com/cloudflare/pat-go/tokens/type2"
 	"golang.org/x/crypto/cryptobyte"
 )
 
@@ -29,4 +31,45 @@ var _ = Vassert
 //@   invariant cap(token_responses) == 0 || fresh(token_responses)
 //@   invariant len(token_responses) <= len(data)-len(token_responses_string)
 //@   decreases len(token_responses_string)
+//@ end
+
+// SpecBatchReqsOK(body): body is a concatenation of type-1 (3+Ne = 52 bytes) and type-2 (3+Nk = 259 bytes)
+// token requests, i.e. each element starts with token_type 0x0001 or 0x0002 and is complete.
+//
+//@ spec rec
+func SpecBatchReqsOK(body string) bool {
+	if len(body) == 0 {
+		return true
+	}
+	if len(body) < 2 || body[0] != 0 {
+		return false
+	}
+	if body[1] == 1 {
+		return len(body) >= 3+type1.Ne && SpecBatchReqsOK(body[3+type1.Ne:])
+	}
+	if body[1] == 2 {
+		return len(body) >= 3+type2.Nk && SpecBatchReqsOK(body[3+type2.Nk:])
+	}
+	return false
+}
+
+// The generic batch request decoder accepts exactly a well-formed varint length, within the data, followed
+// by a list of complete type-1 / type-2 requests filling the declared length; requests of any other type
+// are rejected. It never touches the cached encoding (which no function of the package ever sets on a
+// caller's object: see Marshal).
+//
+//@ func (r *BatchedTokenRequest) Unmarshal(data []byte) (ok bool)
+//@ props C03 C04 C16
+//@ let in = string(data)
+//@ ensures ok ==> quicwire.ConsumeVarintOK(in) && quicwire.ConsumeVarintValue(in) <= uint64(len(data)-quicwire.ConsumeVarintLen(data[0]))
+//@ ensures ok ==> SpecBatchReqsOK(in[quicwire.ConsumeVarintLen(data[0]) : quicwire.ConsumeVarintLen(data[0])+int(quicwire.ConsumeVarintValue(in))])
+//@ ensures sameslice(r.raw, old(r.raw))
+//@ assigns r.token_requests
+//@ alloc 64*len(data) + 4096
+//@ loop 0 vars(i int, offset int, l uint64)
+//@   invariant offset >= 0 && offset <= i && i <= offset+int(l) && l <= uint64(len(data)-offset)
+//@   invariant cap(r.token_requests) == 0 || fresh(r.token_requests)
+//@   invariant len(r.token_requests) <= i-offset
+//@   invariant SpecBatchReqsOK(string(data[offset:offset+int(l)])) == SpecBatchReqsOK(string(data[i:offset+int(l)]))
+//@   decreases offset+int(l)-i
 //@ end
